@@ -14,6 +14,14 @@ fn disp<T: ArrayElement + FromStr>(sh: &[usize], es: &[String], prec: Option<usi
         (None, false) => format!("{a}"), (None, true) => format!("{a:#}"),
         (Some(p), false) => format!("{a:.p$}"), (Some(p), true) => format!("{a:#.p$}"),
     };
+    // the Result form (PrintableResult) prints the same text inside Ok(..), with the same precision / pretty flag
+    // (seeded change C18m: the wrapper re-formatted the array with a fresh format spec)
+    let pr = PrintableResult { result: Ok(a.clone()) };
+    let text2 = match (prec, alt) {
+        (None, false) => format!("{pr}"), (None, true) => format!("{pr:#}"),
+        (Some(p), false) => format!("{pr:.p$}"), (Some(p), true) => format!("{pr:#.p$}"),
+    };
+    if text2 != format!("Ok({text})") { return Some(format!("!variant(result form {} vs array form {})", hex(text2.as_bytes()), hex(text.as_bytes()))) }
     Some(format!("s({})", hex(text.as_bytes())))
 }
 
